@@ -33,7 +33,7 @@ for d in ('tasksim', 'threadsim', 'tools'):
     shutil.copytree(f'/verif/{d}', f'{MV}/{d}', ignore=shutil.ignore_patterns('target'))
 for f in ('check', 'known_findings.json'):
     shutil.copy(f'/verif/{f}', f'{MV}/{f}')
-for f in ('tasksim/Cargo.toml', 'tasksim/shadow/eyeball-im/Cargo.toml', 'tasksim/shadow/eyeball-im-util/Cargo.toml', 'threadsim/shadow/eyeball/Cargo.toml'):
+for f in ('tasksim/Cargo.toml', 'tasksim/shadow/eyeball-im/Cargo.toml', 'tasksim/shadow/eyeball-im-util/Cargo.toml', 'threadsim/Cargo.toml', 'threadsim/shadow/eyeball/Cargo.toml'):
     p = f'{MV}/{f}'; s = open(p).read().replace('/repo/', WT + '/'); open(p, 'w').write(s)
 only = set(sys.argv[1:])
 rows = []
